@@ -11,6 +11,11 @@ class CellIdentifierRangeTokenTranslator(AbstractTranslator):
 
         start_cell, finish_cell = token.range
         range_ = excel.get_range(start_cell, finish_cell)
-        range_code = '[' + ','.join([CellTranslator.translate(i, excel, context) for i in range_]) + ']'
+        range_code = ','.join([CellTranslator.translate(i, excel, context) for i in range_])
+        if start_cell.row is None and finish_cell.row is None:
+            # a whole column reaches as far as the sheet does when the value is asked for
+            range_code += (',' if range_ else '') + \
+                f'*[row[0] for row in self._rows_below({start_cell.title}, {start_cell.column}, {start_cell.column}, {len(range_)})]'
+        range_code = '[' + range_code + ']'
 
         return context.set_sub_cell(token.in_cell, range_code)
